@@ -33,6 +33,22 @@ def impl_of(ops):
     return t[1] if t and t[0] == "map" and len(t) > 1 else "ht"
 
 
+def key_args(ops):
+    """the key / prefix arguments of the ops of a case, as bytes"""
+    out = []
+    for o in ops:
+        t = o.split()
+        if t[0] in ("put", "get", "rm", "nadd", "ndel", "ndel2") and len(t) > 1 and t[1] != "*":
+            out.append(unhex(t[1]))
+        elif t[0] in ("iter_new", "foreach") and len(t) > 2:
+            out.append(unhex(t[2]))
+    return out
+
+
+def has_high_byte(ops):
+    return any(c >= 0x80 for k in key_args(ops) for c in k)
+
+
 def hexk(b):
     return b.hex() if b else "-"
 
